@@ -86,6 +86,20 @@ mod verif_replay_m {
             let c = m.clone();
             if !Arc::ptr_eq(&*m, &*c) { println!("M|clone-shares|{l:?}|clone copied the value"); }
         }
+        // documents the bare type rejects (missing required member, wrong root, broken nesting) must be rejected when wrapped, too
+        {
+            let good = yaserde::ser::to_string(&OuterBare { leaf: leaves()[1].clone(), n: 3 }).unwrap();
+            for (what, doc) in [("unbalanced", good.replace("</p:leaf>", "</p:oops>")), ("not-xml", "<<nope".to_string()), ("empty", String::new()),
+                                ("member-not-a-number", good.replace(">3<", ">three<"))] {
+                n += 1;
+                let db: Result<OuterBare, String> = yaserde::de::from_str(&doc);
+                let dw: Result<OuterWrapped, String> = yaserde::de::from_str(&doc);
+                if db.is_ok() != dw.is_ok() { println!("M|field-deserialize|rejected document ({what})|bare ok={} wrapped ok={}", db.is_ok(), dw.is_ok()); }
+                let lb: Result<Leaf, String> = yaserde::de::from_str(&doc);
+                let lw: Result<MultiRef<Leaf>, String> = yaserde::de::from_str(&doc);
+                if lb.is_ok() != lw.is_ok() { println!("M|root-deserialize|rejected document ({what})|bare ok={} wrapped ok={}", lb.is_ok(), lw.is_ok()); }
+            }
+        }
         // history: many failed reads followed by a good one (state kept across calls must not change the result), in one thread
         let good = yaserde::ser::to_string(&OuterBare { leaf: leaves()[1].clone(), n: 3 }).unwrap();
         let bad = good.replace("</p:leaf>", "</p:oops>");
